@@ -856,6 +856,11 @@ func (s *State) applyFunction(name string, fn object.Object, args []object.Objec
 		log.Debugf("Cache miss for %s %v, not caching error result", function.CacheKey, args)
 		return res
 	}
+	// Nor what was computed while the deadline expired or the evaluation was cancelled (catch() may have turned
+	// that error into a value).
+	if s.Context != nil && s.Context.Err() != nil {
+		return res
+	}
 	s.cache.Set(memoKey, args, res, output)
 	log.Debugf("Cache miss for %s %v", function.CacheKey, args)
 	return res
